@@ -26,9 +26,10 @@ def units(tier):
 
 
 def bounded(tier, seed):
-    from pyvc.native_bridge import bounded_harness
+    from pyvc.native_bridge import bounded_harness, bounded_paint
     return [bounded_harness(tier, "C08", "area-and-centroid-oracle", "area = pixel count x voxel size and pos = scaled centroid for every node after "
-                            "every edit/undo/redo and after construction (bulk path)", seed, segonly=True)]
+                            "every edit/undo/redo and after construction (bulk path)", seed, segonly=True),
+            bounded_paint(tier, "C08", "area and centroid of every node equal the mask's after the stroke, its undo and its redo")]
 
 
 def witness(label, failure, seed):
